@@ -454,3 +454,23 @@ func ThreadID() int {
 	}
 	return cur.cur.id
 }
+
+// WaitQuiescent blocks the calling thread until every other thread is finished or disabled.
+func WaitQuiescent() {
+	x := cur
+	if x == nil {
+		return
+	}
+	t := x.cur
+	Point(KGate, func() bool {
+		for _, u := range x.threads {
+			if u == t || u.done {
+				continue
+			}
+			if u.enabled == nil || u.enabled() {
+				return false
+			}
+		}
+		return true
+	})
+}
